@@ -37,7 +37,7 @@ TSpec == TInit /\ [][TNext]_tvars
 Kinds(q) == [i \in 1..Len(q) |-> q[i].k]
 View4(a) == IF Has(inv, a) THEN [has |-> TRUE, c |-> inv[a].c, f |-> inv[a].f] ELSE [has |-> FALSE, c |-> NONE, f |-> NONE]
 Mismatch(ev, prev) ==
-  {k \in {"structure_to_rt", "structure_to_nrt", "unassigned_controller_not_announced", "backend_messages", "value_out_of_range", "value_not_monotone", "learn_queue", "bindings",
+  {k \in {"structure_to_rt", "structure_to_nrt", "unassigned_controller_not_announced", "backend_messages", "value_out_of_range", "value_not_monotone", "value_not_the_linear_map", "learn_queue", "bindings",
           "LearnOrder", "UniqueIds", "GenConsistent", "DrivesItsAddress", "AssignedIsLive"} :
    ~ CASE k = "structure_to_rt"  -> ev.to_rt = Kinds(toRT)
        [] k = "structure_to_nrt" -> ev.to_nrt = toNRT
@@ -51,6 +51,11 @@ Mismatch(ev, prev) ==
        [] k = "value_not_monotone" -> (ev.op = "cc" /\ Len(ev.out) = 1 /\ Len(out) = 1 /\ ev.out[1].a \in DOMAIN prev) =>
                                         LET p == prev[ev.out[1].a] IN /\ (p[1] <= out[1].x => p[2] <= ev.out[1].v)
                                                                       /\ (p[1] >= out[1].x => p[2] >= ev.out[1].v)
+       \* the documented bijection: 14-bit controller value x (coarse half * 128 + fine half, the halves surviving re-bindings of OTHER addresses)
+       \* onto [min, max]: min + (max - min) * x / 16384; tolerance: one unit for integer parameters (conversion), 0.002 for floats
+       [] k = "value_not_the_linear_map" -> (ev.op = "cc" /\ Len(ev.out) = 1 /\ Len(out) = 1 /\ V = 128) =>
+                                        LET i == Info(ev.out[1].a)  e == i.lo + ((i.hi - i.lo) * out[1].x) \div 16384  d == ev.out[1].v - e  tol == IF i.int THEN 1000 ELSE 2 IN
+                                        d <= tol /\ 0 - d <= tol
        [] k = "learn_queue" -> ev.lq = [i \in 1..Len(lq) |-> [a |-> lq[i][1], coarse |-> lq[i][2]]]
        [] k = "bindings" -> \A i \in 1..Len(ev.view) : LET w == View4(ev.view[i].a) IN
                                ev.view[i].has = w.has /\ ev.view[i].c = w.c /\ ev.view[i].f = w.f
